@@ -9,6 +9,8 @@
 //! rng u64rg <seed> <min> <max> <n> | rng i64rg <seed> <min> <max> <n>
 //! rng f64lt <seed> <max:f64> <n> | rng f64rg <seed> <min:f64> <max:f64> <n>
 //! du <seed> <lower> <upper> <n>                   -> DiscreteUniform::new(lower,upper).sample_n(n), state
+//! dur <route> <seed> <lower> <upper> <n>         -> same law through a peripheral route (1 default+update, 2 set_upper+clone,
+//!                                                    3 set_lower, 4 a longer sample_n on a wider object first, then reseed)
 //! uni <seed> <lower:f64> <upper:f64> <n>          -> Uniform::new(lower,upper).sample_n(n), state
 //! boot <seed> <n_bootstrap> <vec>                 -> nb len <nb*len floats> state
 //! jack <vec>                                      -> count len' <floats>
@@ -93,6 +95,37 @@ fn step(_: &mut (), t: &mut Toks) -> R<String> {
             t.end()?;
             alea::set_seed(seed);
             let v = DiscreteUniform::new(lo, hi).sample_n(n);
+            Ok(ok(with_state(show_fs(&v))))
+        }
+        "dur" => {
+            let (route, seed, lo, hi, n) = (t.usize()?, t.u64()?, t.i64()?, t.i64()?, t.usize()?);
+            t.end()?;
+            alea::set_seed(seed);
+            let d = match route {
+                1 => {
+                    let mut d = DiscreteUniform::default();
+                    d.update(&[lo as f64, hi as f64]);
+                    d
+                }
+                2 => {
+                    let mut d = DiscreteUniform::new(lo, lo);
+                    d.set_upper(hi);
+                    d.clone()
+                }
+                3 => {
+                    let mut d = DiscreteUniform::new(hi, hi);
+                    d.set_lower(lo);
+                    d
+                }
+                4 => {
+                    let wide = DiscreteUniform::new(lo.saturating_sub(1000), hi.saturating_add(1000) - 1);
+                    let _ = wide.sample_n(2 * n + 7);
+                    alea::set_seed(seed);
+                    DiscreteUniform::new(lo, hi)
+                }
+                _ => DiscreteUniform::new(lo, hi),
+            };
+            let v = d.sample_n(n);
             Ok(ok(with_state(show_fs(&v))))
         }
         "uni" => {
